@@ -23,7 +23,7 @@ import random
 from collections import Counter
 from typing import Any
 
-from .. import cachehist, core, escommon, fresh
+from .. import cachehist, core, escommon, fresh, shared_inventory
 from ..gen.programs import Cfg
 
 MODULES = ["ESV.Props.C11"]
@@ -32,7 +32,7 @@ THEOREMS = [
     "ESV.C11.tidy_prefix_then_fresh", "ESV.C11.tidy_prefix_then_fresh_queries", "ESV.C11.outputs_of_call_after_tidy_prefix",
     "ESV.C11.sequential_no_keyerror", "ESV.C11.cache_stale_counterexample", "ESV.C11.call_depends_on_memo_counterexample",
     "ESV.C11.print_indent_only", "ESV.C11.compile_reset", "ESV.C11.compile_ctor", "ESV.C11.compile_reset_after_history",
-    "ESV.C11.compile_order_reset_pinned",
+    "ESV.C11.compile_order_reset_pinned", "ESV.C11.history_state_inventory_pinned",
 ]
 SESSION = "harness.impl_cache:run_session"
 
@@ -161,6 +161,14 @@ def rs_multiline() -> list[dict]:
     ]
 
 
+COLD_TEXTS = [
+    "def 0 {\n    $X = 1;\n    $Y[2] = 3;\n    $Z += value($X);\n    with (actor 2) {\n        SetAnimation(3);\n    }\n    with (object 1) {\n        Destroy();\n    }\n    end;\n}\n",
+    "def 0 {\n    dungeon_mode(3) = 2;\n    clear $A;\n    reset dungeon_result;\n    message_SwitchTalk ($S) {\n        case 1:\n            'one'\n        default:\n            { english='d', german='e' }\n    }\n    a();\n    hold;\n}\n",
+    "macro m($p) {\n    $V = $p;\n    with (performer 0) {\n        x($p);\n    }\n}\ndef 0 {\n    ~m(4);\n    if ($V == 4) {\n        return;\n    }\n    adventure_log = 5;\n    end;\n}\ncoro C {\n    $W -= 1;\n    hold;\n}\n",
+    "def 0 for_actor(1) {\n    $scn = scn[3, 4];\n    init $Q;\n    message_SwitchMonologue ($Q) {\n        case 2:\n            'm'\n    }\n    jump @l;\n    @l;\n    call @l2;\n    end;\n    @l2;\n    return;\n}\n",
+]
+
+
 def fixture_texts() -> list[dict]:
     out = []
     base = os.path.join(core.REPO, "tests", "fixtures", "compiler", "macros_imports_test")
@@ -244,6 +252,10 @@ class Pools:
         self.graphs: list[list[dict]] = []   # import graphs: compile calls of the files of one project
         self.rs_ml: list[dict] = []       # decompile calls on sets with multi-line constant strings
         self.cli_build: list[dict] = []
+        self.cli_fn: list[dict] = []      # direct calls of the public helper functions of explorerscript/cli/*.py
+        self.cold_cd: list[dict] = []     # scripts with assignments / ctx blocks / keywords / message switches / macros (C12 cold start)
+        self.cold_rs: list[dict] = []
+        self.cli_public: list[str] = []
 
 
 def build_pools(run: core.Run, jobs: int, n_prog: int) -> tuple[Pools, dict, Counter]:
@@ -258,6 +270,7 @@ def build_pools(run: core.Run, jobs: int, n_prog: int) -> tuple[Pools, dict, Cou
     texts = [{"kind": "compile", "text": p["text"], "lookup": []} for p in progs if len(p["text"]) < 6000]
     texts += [{"kind": "compile", "text": t, "lookup": []} for t in MACRO_TEXTS] + [{"kind": "compile", "text": SSBS_TEXT, "lookup": []}]
     texts += fixture_texts()
+    texts += [{"kind": "compile", "text": t, "lookup": []} for t in COLD_TEXTS]
     bad = [{"kind": "compile", "text": t, "lookup": []} for t in BAD_TEXTS]
     for p in progs[: max(3, n_prog // 6)]:
         t = p["text"]
@@ -316,13 +329,35 @@ def build_pools(run: core.Run, jobs: int, n_prog: int) -> tuple[Pools, dict, Cou
         if any(isinstance(q, dict) and "s" in q and "\n" in q["s"] for rt in c["rs"]["ops"] for o in rt for q in o["params"]) and len(pools.rs_ml) < 12:
             pools.rs_ml.append(copy.deepcopy(c))
     pools.graphs = project_calls() + fixture_projects()
+    for t in COLD_TEXTS:
+        ref_t = refs.get(spec_key({"kind": "compile", "text": t, "lookup": []}))
+        if ref_t and not ref_t.get("no_answer") and ref_t.get("full", {}).get("ops") is not None:
+            full = ref_t["full"]
+            pools.cold_cd.append({"kind": "compile_decompile", "text": t})
+            pools.cold_rs.append({"kind": "decompile", "rs": {"infos": full["infos"], "coros": full["coros"],
+                                  "ops": [[{"off": o["off"], "name": o["name"], "params": o["params"]} for o in x] for x in full["ops"]]}})
+    # direct calls of the CLI helper functions
+    pub = fresh.run_fresh("harness.impl_cache:cli_functions", None, timeout=60)
+    pools.cli_public = pub if isinstance(pub, list) else []
+    for c in pools.cli:
+        first = c["routines"][0]["ops"]
+        n = len(first)
+        if all(not (isinstance(q, int) and q > n) or True for o in first for q in o["params"]):
+            pools.cli_fn.append({"kind": "cli_fn", "fn": "decompile.read_ops", "ops": copy.deepcopy(first)})
+    pools.cli_fn += [{"kind": "cli_fn", "fn": "decompile.parse_pos_mark_arg", "arg": a} for a in ("3", "4.5", "x")]
+    pools.cli_fn += [{"kind": "cli_fn", "fn": "compile.build_ops", "text": c["text"]} for c in pools.texts[:4] if "file" not in c]
+    pools.cli_fn += [{"kind": "cli_fn", "fn": "cli.check_settings", "arg": a} for a in
+                     ({"settings": {"performance_progress_list_var_name": "P", "dungeon_mode_constants": {"open": "O", "closed": "C", "request": "R", "open_request": "OR"}}}, {"settings": {}})]
     ssbs = [dict(copy.deepcopy(c), kind="ssbs_decompile") for c in pools.rs_ml + pools.rs + pools.rs_switch[:3]]
-    reference(pools.rs + pools.rs_abort + pools.rs_switch + pools.rs_broken + pools.cli + pools.cd + pools.cli_build + pools.rs_ml + ssbs
+    reference(pools.rs + pools.rs_abort + pools.rs_switch + pools.rs_broken + pools.cli + pools.cd + pools.cli_build + pools.rs_ml + ssbs + pools.cli_fn + pools.cold_cd + pools.cold_rs
               + [c for g in pools.graphs for c in g])
     pools.graphs = [[c for c in g if not refs[spec_key(c)].get("no_answer")] for g in pools.graphs]
     pools.graphs = [g for g in pools.graphs if len(g) >= 2]
     pools.rs_ml = [c for c in pools.rs_ml if not refs[spec_key(c)].get("no_answer") and not refs[spec_key(dict(c, kind="ssbs_decompile"))].get("no_answer")]
     pools.cli_build = [c for c in pools.cli_build if not refs[spec_key(c)].get("no_answer")]
+    pools.cli_fn = [c for c in pools.cli_fn if not refs[spec_key(c)].get("no_answer")]
+    pools.cold_cd = [c for c in pools.cold_cd if not refs[spec_key(c)].get("no_answer")]
+    pools.cold_rs = [c for c in pools.cold_rs if not refs[spec_key(c)].get("no_answer")]
     for name in ("rs", "rs_abort", "rs_switch", "rs_broken", "cli", "cd"):
         setattr(pools, name, [c for c in getattr(pools, name) if not refs[spec_key(c)].get("no_answer")])
     return pools, refs, stats
@@ -441,6 +476,28 @@ def hist_cli_after_api(r: random.Random, pools: Pools, hid: int) -> list[dict]:
     return calls
 
 
+def hist_cli_direct(r: random.Random, pools: Pools, hid: int) -> list[dict]:
+    """the public helper functions of explorerscript/cli/*.py called directly (read_ops without a counter, read_routines,
+    build_ops, build_routines_json, parse_pos_mark_arg, check_settings), each several times, interleaved with API calls"""
+    calls: list[dict] = []
+    for _ in range(r.randint(3, 6)):
+        c = r.random()
+        if c < 0.45 and pools.cli_fn:
+            x = copy.deepcopy(r.choice(pools.cli_fn))
+            calls.append(x)
+            if r.random() < 0.5:
+                calls.append(copy.deepcopy(x))                     # the same helper call again
+        elif c < 0.6 and pools.cli:
+            calls.append(copy.deepcopy(r.choice(pools.cli)))
+        elif c < 0.7 and pools.cli_build:
+            calls.append(copy.deepcopy(r.choice(pools.cli_build)))
+        elif c < 0.85 and pools.rs:
+            calls.append(copy.deepcopy(r.choice(pools.rs)))
+        elif pools.texts:
+            calls.append(copy.deepcopy(r.choice(pools.texts)))
+    return calls
+
+
 def gen_any_history(r: random.Random, pools: Pools, refs: dict, maxlen: int, hid: int) -> list[dict]:
     c = r.random()
     if c < 0.55:
@@ -449,9 +506,11 @@ def gen_any_history(r: random.Random, pools: Pools, refs: dict, maxlen: int, hid
         return hist_import_graph(r, pools, hid)
     if c < 0.84:
         return hist_shared_objects(r, pools, hid)
-    if c < 0.92:
+    if c < 0.90:
         return hist_compiled_objects(r, pools, refs, hid)
-    return hist_cli_after_api(r, pools, hid)
+    if c < 0.95:
+        return hist_cli_after_api(r, pools, hid)
+    return hist_cli_direct(r, pools, hid)
 
 
 def witness_histories(pools: Pools) -> list[tuple[str, list[dict]]]:
@@ -471,6 +530,9 @@ def witness_histories(pools: Pools) -> list[tuple[str, list[dict]]]:
         x = pools.rs_ml[min(1, len(pools.rs_ml) - 1)]["rs"]
         w.append(("same_objects_both_decompilers", [{"kind": "ssbs_decompile", "rs": copy.deepcopy(x), "obj": "wo"}, {"kind": "decompile", "rs": copy.deepcopy(x), "obj": "wo"},
                                                     {"kind": "ssbs_decompile", "rs": copy.deepcopy(x), "obj": "wo"}]))
+    ro = [c for c in pools.cli_fn if c["fn"] == "decompile.read_ops"]
+    if ro:
+        w.append(("cli_helpers_directly", [copy.deepcopy(ro[0]), copy.deepcopy(ro[0]), copy.deepcopy(ro[-1])]))
     rs = rs_switch(1, 1)
     w.append(("convert_twice", [{"kind": "decompile", "rs": rs, "keep": "w1"}, {"kind": "convert_again", "keep": "w1", "rs": rs}]))
     return w
@@ -551,6 +613,11 @@ def diagnose(calls: list[dict], ref: dict) -> tuple[str, str, dict]:
                 "the difference vanishes when graph_utils.find_first_common_next_vertex_in_edges_cache is emptied before the call " \
                 "(a dead graph's entry is found under a recycled id(graph): build_and_group_switch_cases queries before any clear)", detail
         return "decompile_result_depends_on_history", f"decompile result ({'/'.join(fd)}) differs after a history of {len(calls) - 1} call(s)", detail
+    if kind_l == "cli_fn":
+        n_before = len([c for c in calls[:-1] if c["kind"] in ("cli_fn", "cli_read", "cli_build")])
+        return "cli_helper_result_depends_on_history", \
+            f"explorerscript.cli.{last['fn']} called directly gives another {'/'.join(fd)} after {n_before} earlier call(s) of CLI helpers in the process than as the first call of a fresh process " \
+            f"({got['summary'].get('error', '') or ('offsets ' + str(got['full'].get('offsets')) + ' instead of ' + str(ref['full'].get('offsets')) if 'offsets' in fd else '')})", detail
     if kind_l == "cli_read":
         if not differs(calls[:-1] + [dict(last, reset_counter=True)], ref["digest"]):
             return "cli_read_routines_offsets_continue", \
@@ -646,6 +713,8 @@ def run(run: core.Run) -> int:
     n_instr = 4 if quick else 40
     jobs = core.jobs_for(run.tier)
     stamp0 = fresh.tree_stamp()
+    inv = shared_inventory.inventory(core.REPO)
+    shared_inventory.write_lean(inv)
     prep = core.lean_prepare(MODULES)
     aud = core.audit(THEOREMS, MODULES) if prep["proofs_ok"] else {"obligations": len(THEOREMS), "discharged": 0, "ok": False, "theorems": {}}
     drv = core.Driver() if prep["driver_ok"] else None
@@ -654,6 +723,15 @@ def run(run: core.Run) -> int:
         ties["compiler_model"] = tie_compiler_model(run, drv)
         ties["indent_model"] = tie_indent_model(run, drv)
 
+    pinned: list[str] = []
+    inv_new: list[str] = []
+    inv_gone: list[str] = []
+    if drv is not None:
+        pinned, inv_new, inv_gone = shared_inventory.diff_with_pinned(drv, inv)
+        if inv_new or inv_gone:
+            run.broken_tie("static inventory C11: the process-wide state the current source can write (mutable default arguments, module/class-level objects mutated by functions, "
+                           f"globals, interpreter settings) differs from the list the history model is built over (lean/ESV/Cache/Shared.lean): new {inv_new}, no longer present {inv_gone}",
+                           {"new": inv_new, "gone": inv_gone})
     pools, refs, stats = build_pools(run, jobs, n_prog)
     # fresh processes against each other (process restarts; hash randomisation)
     sample = run.rng.sample(pools.rs + pools.texts + pools.rs_switch, min(16 if quick else 60, len(pools.rs + pools.texts + pools.rs_switch)))
@@ -674,6 +752,17 @@ def run(run: core.Run) -> int:
         targeted += 60
     if ties.get("compiler_model") and not ties["compiler_model"].get("ok") and pools.graphs:
         hists += [hist_import_graph(run.rng, pools, 120000 + h) for h in range(40)] + [gen_history(run.rng, pools, maxlen, 130000 + h) for h in range(20)]
+        targeted += 60
+    # … and when the static inventory names new shared state: histories over the functions / modules the new entries are in
+    new_files = {x.split("|")[1] for x in inv_new if len(x.split("|")) > 1}
+    if any(f.startswith("cli") for f in new_files):
+        hists += [hist_cli_direct(run.rng, pools, 140000 + h) for h in range(40)] + [hist_cli_after_api(run.rng, pools, 150000 + h) for h in range(15)]
+        targeted += 55
+    if any("compiler" in f or f.startswith("macro") or "ssb_compiler" in f or f.startswith("antlr") for f in new_files) and pools.graphs:
+        hists += [hist_import_graph(run.rng, pools, 160000 + h) for h in range(30)] + [gen_history(run.rng, pools, maxlen, 170000 + h) for h in range(20)]
+        targeted += 50
+    if any("decompiler" in f or "ssb_data_types" in f or "ssb_special_ops" in f or "ssb_script" in f for f in new_files):
+        hists += [hist_shared_objects(run.rng, pools, 180000 + h) for h in range(25)] + [gen_history(run.rng, pools, maxlen, 190000 + h) for h in range(35)]
         targeted += 60
     stats["targeted_histories_after_broken_tie"] = targeted
     sessions: list[dict] = [{"name": "witness:" + nm, "calls": calls} for nm, calls in witnesses]
@@ -799,7 +888,13 @@ def run(run: core.Run) -> int:
         run.broken_tie("Lean obligations of C11 do not check (build/audit)", {"theorems": THEOREMS, "log": prep["log"][-3000:], "audit": aud})
 
     cleanup_projects()
-    sample_hist = [[{k: (v if k not in ("rs", "text", "routines", "project") else "…") for k, v in c.items()} for c in h] for h in hists[:2]]
+    if (inv_new or inv_gone) and pinned:
+        shared_inventory.write_lean(pinned)          # keep the checkout buildable after a run on a changed tree
+    no_driver = [f for f in pools.cli_public if f not in ("decompile.read_ops", "decompile.read_routines", "decompile.parse_pos_mark_arg", "compile.build_ops",
+                                                          "compile.build_routines_json", "cli.check_settings")]
+    if no_driver:
+        run.notes.append("public CLI functions without a history driver (extend impl_cache.do_call 'cli_fn'): " + ", ".join(no_driver))
+    sample_hist = [[{k: (v if k not in ("rs", "text", "routines", "project", "ops") else "…") for k, v in c.items()} for c in h] for h in hists[:2]]
     cov = core.proof_coverage(run, prep, aud, MODULES, THEOREMS, {
         "explanation": "Kernel-checked theorems about the memo-table protocol under all histories (K3 model); the model is tied to graph_utils.py by replaying "
                        "recorded real histories through the Lean machine; the property itself is explored on the real code: each call's result after a generated "
@@ -812,7 +907,8 @@ def run(run: core.Run) -> int:
         "samples": sample_hist, "histories": len(hists), "sessions": len(sessions), "instrumented_sessions": len(instr_sessions),
         "calls_by_kind": dict(n_calls), "outcomes": dict(outcome), "stats": dict(stats),
         "difference_shapes": {json.dumps(k): v for k, v in buckets.items()},
-        "pool_sizes": {k: len(getattr(pools, k)) for k in ("texts", "bad_texts", "rs", "rs_abort", "rs_switch", "rs_broken", "cli", "cd", "graphs", "rs_ml", "cli_build")},
+        "pool_sizes": {k: len(getattr(pools, k)) for k in ("texts", "bad_texts", "rs", "rs_abort", "rs_switch", "rs_broken", "cli", "cd", "graphs", "rs_ml", "cli_build", "cli_fn", "cold_cd", "cold_rs")},
+        "cli_public_functions": pools.cli_public, "shared_state_inventory": {"entries": len(inv), "new": inv_new, "gone": inv_gone},
         "indent_attributes_changed_by_convert": indent_changes, "caller_ops_changed_in_meaning": input_changed,
         "memo_tables_reclaimed_by_new_graphs (id reuse observed, uninstrumented)": reuse_signs,
         "traces_validated_against_impl": int(tv["histories_replayed"]), "trace_validation": dict(tv), "calls_by_lean_verdict": dict(seg_stats),
